@@ -111,6 +111,9 @@ func ResultPaths(fn *ssa.Function, idx int, want bool) (out []CondPath, ok bool)
 			seen := map[ssa.Value]bool{}
 			contra := false
 			for _, c := range cp.Conds {
+				if c.At != nil && len(Latches(c.At)) > 0 {
+					continue // the header test of a loop passed twice
+				}
 				if v, has := seen[c.V]; has && v != c.True {
 					contra = true
 				}
